@@ -1433,11 +1433,11 @@ func (c *compiler) VisitBinaryExpr(e *ast.BinaryExpr) ast.VisitResult {
 			c.latestReturnType = c.ddpinttyp
 		}
 	case ast.BIN_LEFT_SHIFT:
-		c.latestReturn = c.cbb.NewShl(lhs, rhs)
-		c.latestReturnType = c.ddpinttyp
+		// the result has the type of lhs, so the shift count is cast to it
+		c.latestReturn = c.cbb.NewShl(lhs, c.numericCast(rhs, rhsTyp, lhsTyp))
 		c.latestReturnType = lhsTyp
 	case ast.BIN_RIGHT_SHIFT:
-		c.latestReturn = c.cbb.NewLShr(lhs, rhs)
+		c.latestReturn = c.cbb.NewLShr(lhs, c.numericCast(rhs, rhsTyp, lhsTyp))
 		c.latestReturnType = lhsTyp
 	case ast.BIN_EQUAL:
 		c.compare_values(lhs, rhs, lhsTyp)
